@@ -54,10 +54,10 @@ Proof.
 Qed.
 Print Assumptions C20_config_exact.
 
-Theorem C20_config_last_write : forall kd m0 ops alpha id key v k,
-  spec_crun kd m0 (ops ++ [CSet alpha id key v]) !! k =
-  if spec_caccept kd (CSet alpha id key v) && bytes_eqb key k
-  then Some (spec_cval (CSet alpha id key v)) else spec_crun kd m0 ops !! k.
+Theorem C20_config_last_write : forall kd m0 ops o k,
+  spec_crun kd m0 (ops ++ [o]) !! k =
+  if spec_caccept kd o && bytes_eqb (spec_ckey o) k
+  then Some (spec_cval o) else spec_crun kd m0 ops !! k.
 Proof. exact spec_crun_last. Qed.
 Print Assumptions C20_config_last_write.
 
@@ -73,6 +73,27 @@ Theorem C20_config_step : forall kd s alpha id key v,
   else (s, VFault, []).
 Proof. exact cstep_cases. Qed.
 Print Assumptions C20_config_step.
+
+(** NeoFS without notary: a [SetConfig] is a vote; it takes effect exactly
+    when a member's vote completes the tally of its decision, and then exactly
+    as the authorised call with the completing invocation's arguments; every
+    other vote of a member halts and leaves the configuration alone (so the
+    store read back is the value of the last decision that reached its
+    threshold, by [C20_config_exact] over histories with votes). *)
+Theorem C20_config_vote_step : forall kd s member applied id key v,
+  cstep kd s (CVote member applied id key v) =
+  if member then
+    if applied then cstep kd s (CSet true id key v) else (s, VNull, [])
+  else (s, VFault, []).
+Proof. exact cstep_vote_cases. Qed.
+Print Assumptions C20_config_vote_step.
+
+Theorem C20_config_vote_accept : forall kd member applied id key v,
+  spec_caccept kd (CVote member applied id key v) = spec_caccept kd (CSet (member && applied) id key v) /\
+  spec_ckey (CVote member applied id key v) = key /\
+  spec_cval (CVote member applied id key v) = spec_cval (CSet true id key v).
+Proof. intros. repeat split. Qed.
+Print Assumptions C20_config_vote_accept.
 
 (** A byte-string value is read back byte for byte, also when it looks like
     a non-minimal integer encoding. *)
@@ -488,6 +509,17 @@ Example C20_config_nonvacuous_typed :
               CSet true [] [100]%N VNull; CSet true [] [101]%N (VBytes [255; 255; 255]%N)] in
   map (cget s) [[97]; [98]; [99]; [100]; [101]]%N =
   [Some [127; 255]; Some [1]; Some []; None; Some [255; 255; 255]]%N.
+Proof. vm_compute. reflexivity. Qed.
+
+(** Votes: two decisions on one key; the late vote for the first one (ballot
+    closed, tally incomplete) changes nothing. *)
+Example C20_config_nonvacuous_votes :
+  let s := crun CNeoFS (cinit [])
+             [CVote true false [1]%N [107]%N (VBytes [1]%N); CVote true false [1]%N [107]%N (VBytes [1]%N);
+              CVote true true [1]%N [107]%N (VBytes [1]%N); CVote true false [2]%N [107]%N (VBytes [2]%N);
+              CVote true true [2]%N [107]%N (VBytes [2]%N); CVote true false [1]%N [107]%N (VBytes [1]%N);
+              CVote false true [3]%N [107]%N (VBytes [3]%N)] in
+  cget s [107]%N = Some [2]%N.
 Proof. vm_compute. reflexivity. Qed.
 
 Definition OW1 : bytes := repeat 1%N 25.
